@@ -95,6 +95,7 @@ def rules(ctx, cfg):
     hf_same = FIXED
     hf_other = lambda key, depth=1: [4, 6, 8, 10, 12, 14, 16, 18, 20, 22][:depth]  # noqa: E731
     hf_probe_only = lambda key, depth=1: (FIXED(key, depth) if key == "test" else [9, 9, 9, 9, 9, 9, 9, 9, 9, 9][:depth])  # noqa: E731
+    hf_first_only = lambda key, depth=1: ([FIXED(key, 1)[0]] + [40, 42, 44, 46, 48, 50, 52, 54, 56])[:depth]  # noqa: E731  (agrees with hf_same on the first value only)
     for cls in (BloomFilter, CountingBloomFilter):
         a = cls(10, 0.05, hash_function=hf_same)
         a.add("x")
@@ -115,6 +116,9 @@ def rules(ctx, cfg):
             ctx.check(other.union(a) is None and other.intersection(a) is None and other.jaccard_index(a) is None, "rule-geometry-none")
         other = cls(10, 0.05, hash_function=hf_other)
         ctx.check(a.union(other) is None and a.intersection(other) is None and a.jaccard_index(other) is None, "rule-different-hash")
+        other = cls(10, 0.05, hash_function=hf_first_only)
+        ctx.check(a.union(other) is None and a.intersection(other) is None and a.jaccard_index(other) is None, "rule-different-hash")
+        ctx.check(other.union(a) is None and other.intersection(a) is None and other.jaccard_index(a) is None, "rule-different-hash")
         ok = cls(10, 0.05, hash_function=hf_same)
         ctx.check(a.union(ok) is not None and a.intersection(ok) is not None and a.jaccard_index(ok) is not None, "rule-compatible-accepted")
         for foreign in (None, 5, "x", [1], CountMinSketch(width=3, depth=2)):
@@ -135,6 +139,7 @@ def rules(ctx, cfg):
     for other, exc in ((CountMinSketch(width=4, depth=2, hash_function=hf_same), CountMinSketchError),
                        (CountMinSketch(width=3, depth=3, hash_function=hf_same), CountMinSketchError),
                        (CountMinSketch(width=3, depth=2, hash_function=hf_other), CountMinSketchError),
+                       (CountMinSketch(width=3, depth=2, hash_function=hf_first_only), CountMinSketchError),
                        (BloomFilter(10, 0.05), TypeError), (None, TypeError), (7, TypeError)):
         try:
             c.join(other)
